@@ -12,10 +12,15 @@ Two transcriptions are related:
   FreeType side Model/FtCalc.lean (ftcalc.c FT_MulFix/FT_DivFix/FT_MulDiv/FT_MulDiv_No_Round,
                 ttinterp.c TT_MulFix14/TT_DotFix14, FT_PIX_* macros), Model/FtRound.lean
                 (ttinterp.c Round_* and SetSuperRound) — 64-bit `long` arithmetic of the x86-64 build.
-Each theorem: for ALL i32 operands, whenever the skrifa function returns (does not trap), its result
-is the FreeType function's result (truncated to 32 bits where FreeType returns a 64-bit `long`
-that skrifa's `i32` API cannot hold; the corollaries state exact equality whenever FreeType's
-result fits).  Helper lemmas: Lemmas/FtEq.lean.
+Shape of the theorems: for ALL i32 operands the skrifa function equals the FreeType function
+(truncated to 32 bits where FreeType returns a 64-bit `long` that skrifa's `i32` API cannot hold, with a
+corollary of exact equality whenever FreeType's result fits).  Where skrifa wraps at 32 bits and
+FreeType's `long` has 64 (rounding a distance next to ±2^31) equality is stated on an explicit range
+that is astronomically larger than any outline (|d| ≤ 2^30 26.6 units = 16.7 million pixels), and an
+`example` shows the two really differ outside it.  Where skrifa still uses plain (trapping)
+operators the statement is `skrifa = some (FreeType)`, i.e. it also proves "does not trap".
+Last section: the unhinted scaling pipeline of a simple glyph (Model/Scale.lean).
+Helper lemmas: Lemmas/FtEq.lean.
 -/
 import FontVerif.Lemmas.FtEq
 import FontVerif.Model.Scale
